@@ -224,8 +224,8 @@ def run_check(pid, pc, tier, seed, repo, work, t0, replay):
     canary_info = {}
     for u, r in canaries.items():
         bodies = [it for it in r.unit.items if it.get('has_body')] if r.unit else []
-        if r.status == 'undecided' and 'lost anchor' in r.reason:
-            continue  # already reported by the main run
+        if r.status in ('undecided', 'broken') and not r.functions:
+            continue  # the unit could not be run at all: already reported by the main run
         okf = [f for f, d in r.functions.items() if d['success'] and d['mode'] == 'exec']
         # every exec function with a source body must now fail: successful exec fns must be external/hoisted ones
         passed = []
